@@ -267,6 +267,19 @@ impl TxPool {
         }
     }
 
+    /// Removes the pooled transactions which lost an input or a dep with `tx`, a transaction
+    /// detached from the chain which is not back in the pool.
+    pub(crate) fn remove_by_detached_tx(&mut self, tx: &TransactionView, callbacks: &Callbacks) {
+        for (entry, reject) in self.pool_map.resolve_missing_outputs(tx) {
+            debug!(
+                "removed {} for detached: {}",
+                entry.transaction().hash(),
+                tx.hash()
+            );
+            callbacks.call_reject(self, &entry, reject);
+        }
+    }
+
     // Expire all transaction (and their dependencies) in the pool.
     pub(crate) fn remove_expired(&mut self, callbacks: &Callbacks) {
         let now_ms = ckb_systemtime::unix_time_as_millis();
